@@ -88,8 +88,17 @@ def grammar_cases(tier):
     return out
 
 
+def split_cases():
+    out = []
+    for strs in hostile.SPLITS:
+        pk = {"id": 7, "opcode": 0, "rcode": 0, "flags": 0x8400, "opt": None, "qs": [], "nss": [], "adds": [],
+              "ans": [{"name": [b"x", b"local"], "class": 1, "ttl": 120, "cf": False, "rdata": ("T", "TXT", [("L", [(0, x) for x in strs])])}]}
+        out.append("OBSERVE " + dns.enc_packet_ref(pk).hex())
+    return out
+
+
 def cases(rng, tier):
-    out = show_cases(rng, tier) + grammar_cases(tier)
+    out = show_cases(rng, tier) + grammar_cases(tier) + split_cases()
     for _ in range(3000 if tier == "quick" else 30000):
         p = hostile.hostile_packet(rng)
         b, _ = dns.encode_marked(p, rng, rng.choice([0, 0, 3]))
